@@ -891,6 +891,8 @@ class Evaluator:
             yield s, ("iterv", list(seq0))
         elif seq0 is not None and method == "enumerate" and len(args) == 1:
             yield s, ("iterv", [("tuple", [("lit", i), x]) for i, x in enumerate(seq0)])
+        elif seq0 is not None and method == "zip" and len(args) == 2 and self.as_seq(args[1]) is not None:
+            yield s, ("iterv", [("tuple", [x, y]) for x, y in zip(seq0, self.as_seq(args[1]))])
         elif seq0 is not None and method == "rev" and len(args) == 1:
             yield s, ("iterv", list(reversed(seq0)))
         elif seq0 is not None and method in ("map", "filter", "filter_map") and len(args) == 2 and args[1][0] == "closure" and len(args[1]) == 4:
